@@ -31,7 +31,8 @@ ASSUMPTIONS = [
     'callbacks registered with seterrcall are global, not scoped by '
     'errstate (the statement scopes the reactions profile only)',
 ]
-REQUIRED = ['steps_checked', 'errstate_exception_exits', 'refused_calls',
+REQUIRED = ['steps_checked', 'errstate_decorated_calls',
+            'errstate_exception_exits', 'refused_calls',
             'reaction_raise', 'reaction_ignore', 'reaction_warn',
             'reaction_print', 'reaction_call', 'reaction_clean_inputs']
 
@@ -188,6 +189,48 @@ def _exec(ctx, err, model, step, prog, depthlog):
         else:
             raise Violation('C20/not-refused', 'errstate with unknown kind '
                             'accepted')
+    elif op == 'errstate_deco':
+        # the scoped override used as a decorator, on a function that calls
+        # itself (and a second function sharing the same decorator object)
+        _, kw, depth, exit_ = step
+        saved = dict(model.state)
+        cm = err.errstate(**kw)
+        inside = dict(saved)
+        if 'all' in kw:
+            inside = {k: kw['all'] for k in KINDS}
+        else:
+            inside.update(kw)
+        seen = []
+
+        @cm
+        def g():
+            seen.append(err.geterr())
+
+        @cm
+        def f(d):
+            seen.append(err.geterr())
+            if d:
+                f(d - 1)
+                g()
+            elif exit_ == 'raise':
+                raise Boom()
+        try:
+            f(depth)
+        except Boom:
+            ctx.count('errstate_exception_exits')
+        except (RuntimeError, TypeError, AttributeError):
+            # this errstate object cannot be used as a decorator / re-entered:
+            # refused use, nothing to check but the restoration below
+            ctx.count('errstate_decorator_unsupported')
+        else:
+            ctx.count('errstate_decorated_calls')
+        for st in seen:
+            if st != inside:
+                raise Violation('C20/decorated-block-profile', 'inside a '
+                                'function decorated with errstate(%r) the '
+                                'profile was %r, expected %r' % (kw, st,
+                                                                 inside))
+        model.state = saved
     elif op == 'errstate':
         _, kw, body, exit_ = step
         saved = dict(model.state)
@@ -222,6 +265,8 @@ def _is_nontrivial(prog):
             return True
         if s[0] == 'errstate' and (s[3] == 'raise' or _is_nontrivial(s[2])):
             return True
+        if s[0] == 'errstate_deco':
+            return True
     return False
 
 
@@ -229,7 +274,13 @@ def _rand_prog(r, maxlen, depth=0):
     prog = []
     for _ in range(r.randint(1, maxlen)):
         x = r.random()
-        if x < .25 and depth < 4:
+        if x < .06:
+            kw = {'all': r.choice(STATES)} if r.random() < .3 else \
+                {k: r.choice(STATES) for k in r.sample(KINDS, r.randint(1,
+                                                                        3))}
+            prog.append(('errstate_deco', kw, r.randint(0, 3),
+                         r.choice(['normal', 'raise'])))
+        elif x < .25 and depth < 4:
             if r.random() < .25:
                 kw = {'all': r.choice(STATES)}
             else:
